@@ -11,7 +11,7 @@ import random
 
 from ..core import new_result, violation, Log, hx, unhx, digest
 from ..stream import SimStream, SimHang, gen_schedule, simpler_schedules, temp_seam
-from ..bodyreq import body_request
+from ..bodyreq import body_request, direct_api
 from .. import shrink
 
 PROP = 'C04'
@@ -169,8 +169,9 @@ def _run_case(case):
     body = body2 = inp = None
     status = None
     spilled = False
-    if case['via'] == 'direct':
-        from ombott.request_pkg.body_mixin import _body_read
+    api = direct_api() if case['via'] == 'direct' else None
+    if api is not None:
+        _body_read = api[0]
         stream = SimStream(S, case['sched'])
         with temp_seam(case['temp']) as seam:
             try:
@@ -226,13 +227,13 @@ def _run_case(case):
                       got=hx(body[:64]), expected=hx(expected[:64]))
         if body2 != body:
             violation(res, 'C04:reaccess-differs', 'second access of Request.body returned different bytes')
-        if case['via'] != 'direct' and 'body_after_retype' in o.seen and status == 200 \
+        if api is None and 'body_after_retype' in o.seen and status == 200 \
                 and o.seen['body_after_retype'] != expected:
             violation(res, 'C04:body-differs-after-retype',
                       f'after request["CONTENT_TYPE"] was changed, Request.body has {len(o.seen["body_after_retype"])} '
                       f'bytes, the body has {len(expected)}')
         for k2 in ('copy_body', 'copy_body_partial'):
-            if case['via'] != 'direct' and status == 200 and o.seen.get(k2) != expected:
+            if api is None and status == 200 and o.seen.get(k2) != expected:
                 violation(res, 'C04:copy-body-differs',
                           f'request.copy().body ({k2}: taken after the original body was read) has '
                           f'{len(o.seen.get(k2) or b"")} bytes, the body has {len(expected)}')
